@@ -247,8 +247,48 @@ pub fn open_bytes(st: &mut State, bytes: Vec<u8>) -> Sx {
     }
 }
 
+/// create a package whose database and summary use code page `id`, store `text` in a row, a stream-independent
+/// summary property, save in the given mode, reopen: (database string back, summary string back, code pages back)
+fn cp_roundtrip_pkg(id: i32, text: &str, mode: &str) -> Sx {
+    let cp = CodePage::from_id(id).expect("harness: bad cp");
+    let medium = Medium::new(Vec::new());
+    let mut p = Package::create(PackageType::Installer, medium.clone()).unwrap();
+    p.set_database_codepage(cp);
+    p.summary_info_mut().set_codepage(cp);
+    p.summary_info_mut().set_author(text.to_string());
+    p.summary_info_mut().set_comments(format!("{}{}", text, text));
+    p.create_table("T", vec![msi::Column::build("K").primary_key().int16(), msi::Column::build("V").nullable().string(0)])
+        .unwrap();
+    p.insert_rows(Insert::into("T").row(vec![msi::Value::Int(1), msi::Value::Str(text.to_string())])).unwrap();
+    let bytes = match mode {
+        "flush" => {
+            p.flush().unwrap();
+            let b = medium.snapshot();
+            std::mem::forget(p);
+            b
+        }
+        "into_inner" => p.into_inner().unwrap().snapshot(),
+        _ => {
+            drop(p);
+            medium.snapshot()
+        }
+    };
+    let mut q = match Package::open(Medium::new(bytes)) {
+        Ok(q) => q,
+        Err(_) => return Sx::sym("reopen_failed"),
+    };
+    let db_ok = {
+        let rows: Vec<msi::Row> = q.select_rows(Select::table("T")).unwrap().collect();
+        rows.len() == 1 && rows[0][1] == msi::Value::Str(text.to_string())
+    };
+    let sum_ok = q.summary_info().author() == Some(text) && q.summary_info().comments() == Some(format!("{}{}", text, text).as_str());
+    let cp_ok = q.database_codepage() == cp && q.summary_info().codepage() == cp;
+    Sx::L(vec![Sx::sym("ok"), Sx::boolean(db_ok), Sx::boolean(sum_ok), Sx::boolean(cp_ok)])
+}
+
 pub fn pkg_cmd(st: &mut State, name: &str, args: &[Sx]) -> Option<Sx> {
     match (name, args) {
+        ("x_cp_roundtrip_pkg", [id, text, mode]) => Some(cp_roundtrip_pkg(id.as_int() as i32, &text.as_string(), mode.as_sym())),
         ("create", [t]) => {
             let medium = Medium::new(Vec::new());
             st.medium = Some(medium.clone());
